@@ -262,6 +262,29 @@ func ruleC10GoClosures(c *Ctx) {
 				default:
 					c.Pass("c10.go-closure", key, c.P.Pos(g.Pos()), "defers a recover handler first; Done deferred")
 				}
+				// ... and the converse: a call counted with wg.Add right before the go statement is signalled by the goroutine
+				// (directly or in a helper it calls) — otherwise whoever waits for the group waits for ever
+				addBefore := false
+				for _, pin := range b.Instrs {
+					if pin == ssa.Instruction(g) {
+						break
+					}
+					if _, isGo := pin.(*ssa.Go); isGo {
+						addBefore = false
+					}
+					if call, ok := pin.(*ssa.Call); ok && strings.HasSuffix(calleeName(call.Common()), "(*sync.WaitGroup).Add") {
+						addBefore = true
+					}
+				}
+				if addBefore {
+					signals := false
+					deepInstrs(target, func(_ *ssa.Function, _ *TB, _ *ssa.BasicBlock, tin ssa.Instruction) {
+						if ci, ok := tin.(ssa.CallInstruction); ok && strings.HasSuffix(calleeName(ci.Common()), "(*sync.WaitGroup).Done") {
+							signals = true
+						}
+					})
+					c.Check(signals && goTargetSignals(target, g), "c10.go-closure", key+"/done-after-add", c.P.Pos(g.Pos()), "the goroutine counted with wg.Add signals Done", "wg.Add precedes the go statement but the goroutine never calls Done: Exec waits for the group for ever")
+				}
 				// Add precedes go when the target signals a WaitGroup
 				if doneCalled && goTargetSignals(target, g) {
 					okAdd := false
